@@ -135,8 +135,39 @@ def check(ctx, rep):
                    'the typed and the serialised resolver disagree: %s vs %s' % (tables['typed'], tables['serialized']))
     check_deserializing(rep, core)
     check_private_channels(rep, core)
+    check_core_resolve(rep, core)
     rep.assume('futures::channel::mpsc::unbounded and crux_core::capability::channel return two halves of one fresh FIFO channel')
     rep.assume('Request<Op> cannot be cloned and its resolve field is crate-private (rustc; pinned by witnesses W02.1-3 in the thorough tier)')
+
+
+def check_core_resolve(rep, core):
+    """R02.f: Core::resolve returns a rejected resolution as an error value (it is neither unwrapped nor asserted on)"""
+    from rules.common import failure_reaches_error
+    rep.rule('R02.f', 'Core::resolve reports a rejected resolution as an Err value on every path (no unwrap, no assertion)', floor=2)
+    fs = [f for f in core.built if f.name == 'resolve' and f.kind == 'AssocFn' and path_matches(f.assoc.get('self_adt'), 'crux_core::core::Core')]
+    if len(fs) != 1:
+        rep.missing('R02.f', 'Core::resolve')
+        return
+    f = fs[0]
+    calls = [(bb, t) for bb, t in f.calls('crux_core::core::request::Request::resolve')]
+    if len(calls) != 1:
+        rep.bad('R02.f', 'shape', 'Core::resolve no longer calls Request::resolve exactly once')
+        return
+    bb, t = calls[0]
+    ok, why = failure_reaches_error(f, t['d']['l'], allow_panic=False)
+    # an inspection such as `is_ok()` feeding an assertion is not propagation
+    inspected = [s for s in flows_to(f, t['d']['l']) if s[0] == 'callarg' and last_seg(s[2].get('callee') or '') in
+                 ('is_ok', 'is_err', 'unwrap', 'expect', 'is_ok_and', 'is_err_and')]
+    rep.expect('R02.f', not inspected, 'Core::resolve|not-asserted', 'the result of Request::resolve is only propagated with `?`',
+               'Core::resolve inspects the result of Request::resolve with %s before propagating it (a debug_assert!): in builds with '
+               'debug assertions a second resolution of a one-shot request panics instead of being rejected with an error'
+               % [last_seg(s[2]['callee']) for s in inspected])
+    asserts = [(pb, k, d) for pb, k, d, pt in panic_sites(f) if k == 'panic']
+    rep.expect('R02.f', not asserts, 'Core::resolve|no-panic', 'no panic!/assert! in Core::resolve',
+               'Core::resolve can panic (%s)' % [d for _, _, d in asserts])
+    prop_ok = any(s[0] == 'callarg' and call_matches(s[2], ['core::ops::try_trait::Try::branch']) for s in flows_to(f, t['d']['l'], whole_only=True))
+    rep.expect('R02.f', prop_ok, 'Core::resolve|propagates', 'the ResolveError is returned through `?`',
+               'Core::resolve no longer returns the ResolveError of a rejected resolution')
 
 
 def check_deserializing(rep, core):
